@@ -891,6 +891,9 @@ func (b *Body) rangesOverParam(h *ssa.BasicBlock, param *ssa.Parameter, elem ssa
 // isRangeIndex recognises go/ssa's range-over-slice shape: header has phi
 // i = φ(-1, i+1) ... ; body index = i+1 compared `< len(x)`.
 func isRangeIndex(h *ssa.BasicBlock, idx ssa.Value, over ssa.Value) bool {
+	if isCountedIndex(h, idx, over) {
+		return true
+	}
 	// idx = phi + 1 where phi = φ(-1, idx)
 	bo, ok := idx.(*ssa.BinOp)
 	if !ok || bo.Op != token.ADD {
@@ -1907,4 +1910,81 @@ func (b *Body) decodedString(v ssa.Value, from ssa.Value) string {
 		bad = "no decoder call fills the returned string"
 	}
 	return bad
+}
+
+
+// sameCollection: two SSA values denote the same slice/string/array: identical,
+// or loads of the same field of the same base, or loads of the same local.
+func sameCollection(x, y ssa.Value) bool {
+	x, y = unwrapConv(x), unwrapConv(y)
+	if x == y {
+		return true
+	}
+	b1, f1, ok1 := fieldLoad(x)
+	b2, f2, ok2 := fieldLoad(y)
+	if ok1 && ok2 && f1 == f2 && (b1 == b2 || sameCollection(b1, b2)) {
+		return true
+	}
+	u1, o1 := x.(*ssa.UnOp)
+	u2, o2 := y.(*ssa.UnOp)
+	if o1 && o2 && u1.Op == token.MUL && u2.Op == token.MUL && u1.X == u2.X {
+		if _, isAlloc := u1.X.(*ssa.Alloc); isAlloc {
+			return true
+		}
+		if _, isParam := u1.X.(*ssa.Parameter); isParam {
+			return true
+		}
+	}
+	return false
+}
+
+// isCountedIndex recognises the hand-written counterpart of a range loop over
+// the whole of `over`: the header h holds i = φ(0, i+1) and its branch is
+// i < n or i != n with n = len(over) (computed in the header or hoisted in
+// front of the loop).
+func isCountedIndex(h *ssa.BasicBlock, idx ssa.Value, over ssa.Value) bool {
+	phi, ok := idx.(*ssa.Phi)
+	if !ok || phi.Block() != h {
+		return false
+	}
+	sawInit, sawStep := false, false
+	for _, e := range phi.Edges {
+		if n, ok := intConst(e); ok && n == 0 {
+			sawInit = true
+			continue
+		}
+		if bo, ok := e.(*ssa.BinOp); ok && bo.Op == token.ADD && bo.X == ssa.Value(phi) {
+			if one, ok := intConst(bo.Y); ok && one == 1 {
+				sawStep = true
+				continue
+			}
+		}
+		return false
+	}
+	if !sawInit || !sawStep {
+		return false
+	}
+	iff, ok := h.Instrs[len(h.Instrs)-1].(*ssa.If)
+	if !ok {
+		return false
+	}
+	cmp, ok := iff.Cond.(*ssa.BinOp)
+	if !ok {
+		return false
+	}
+	var bound ssa.Value
+	switch {
+	case (cmp.Op == token.LSS || cmp.Op == token.NEQ) && cmp.X == idx:
+		bound = cmp.Y
+	case (cmp.Op == token.GTR || cmp.Op == token.NEQ) && cmp.Y == idx:
+		bound = cmp.X
+	default:
+		return false
+	}
+	// the body is on the true edge
+	ln, ok := lenArg(bound)
+	if !ok {
+		return false
+	}
+	return sameCollection(ln, over)
 }
